@@ -9,7 +9,7 @@ CHECKS = {
        'beside tile edges and level boundaries) are compared with an exact-rational reference model of a regular tile grid; all '
        'rectangles on an edge lattice of tiny grids are enumerated completely. Exploration is the right level: the statement '
        'quantifies over an infinite numeric domain whose failures cluster at float boundaries, which the generator targets.',
-  note='Trusts CPython fractions/float semantics and Hypothesis; tolerance tau and the accepted (tau, 0.1 px] band are stated in the evidence assumptions.'),
+  note='Trusts CPython fractions/float semantics and Hypothesis; tolerance tau and the accepted (tau, 0.1 px] band are stated in the evidence assumptions. Later addition: deep 16-24 level pyramids of the global and regional grids queried at their finest levels and largest tile indices.'),
  'C15': dict(
   category='exploration',
   design_ref='DESIGN.md section 16',
@@ -19,7 +19,7 @@ CHECKS = {
        'patterns; n = 5-6 is explored randomly with free interleavings. Each run is judged by a timing-independent oracle: exactly one result per input in '
        'input order, the exact exception object of the failing item (or a re-raise of one of them after a correct prefix), termination, and all pool threads exiting.',
   note='Exhaustive at completion-order x consumer-progress granularity; which of the pool\'s two drain loops handles a result depends on OS timing and is '
-       'measured (class drain:*), not controlled. Liveness is bounded by a watchdog (expiry = harness error unless all tasks were released). Fresh pool per case.'),
+       'measured (class drain:*), not controlled. Liveness is bounded by a watchdog (expiry = harness error unless all tasks were released). Fresh pool per case. Later additions: harness-owned task queue during forced shutdown (worker let through between empty() and get()), injected Thread.start failures.'),
  'C07': dict(
   category='exploration',
   design_ref='DESIGN.md section 8',
@@ -29,7 +29,7 @@ CHECKS = {
        'for 2-4 contenders x 1-3 cycles, SemLock n<=3. Checked on every trace: at most n holders at every step, LockTimeout only after >= timeout with every attempt '
        'finding every slot held, no deadlock, all slots re-acquirable afterwards.',
   note='Exhaustive only for the listed small configurations and preemption bounds. Schedule granularity = the instrumented calls (open, flock, chmod, close, remove, '
-       'sleep, time, randint). Timeouts are modelled as 1-5 polling steps on a virtual clock. NFS/lockd semantics and cleanup_lockdir are outside the model.'),
+       'sleep, time, randint). Timeouts are modelled as 1-5 polling steps on a virtual clock. NFS/lockd semantics and cleanup_lockdir are outside the model. Later additions: injected os.remove failure (EPERM) on unlock and lock objects kept alive across cycles.'),
  'C10': dict(
   category='exploration',
   design_ref='DESIGN.md section 11',
@@ -39,7 +39,7 @@ CHECKS = {
        'paints each layer a unique opaque colour. Every response pixel, upstream call and feature-info answer is compared with an independent geometric model: denied colours '
        'appear nowhere and are never requested, pixels > 1 px outside a limit are transparent/bgcolor, pixels > 2 px inside keep their colour, feature info only inside.',
   note='Exploration, not exhaustive. Leaks thinner than ~1 px (3 px for JPEG responses) are invisible; "well inside" is 2 px because the mask is mitred by design; '
-       'capabilities filtering, legends and the demo service are not judged.'),
+       'capabilities filtering, legends and the demo service are not judged. Later additions: services.wms.bbox_srs extents with requests reaching beyond them; services.wms.on_source_errors raise / notify / absent.'),
  'C02': dict(
   category='exploration',
   design_ref='DESIGN.md section 3',
@@ -66,7 +66,7 @@ CHECKS = {
        'variants (file x 6 layouts x link modes x dimensions, mbtiles, per-level sqlite, geopackage, per-level geopackage, compact v1/v2) and compare with a dict model, with a full read-back of '
        'the collision address pool through load_tile / is_cached / load_tiles after every operation. All 3-operation sequences (thorough: 4 for the plain file layouts) over 4-address collision '
        'pools are enumerated completely per variant.',
-  note='Exploration plus exhaustive small scope. One cache object at a time (no concurrency, no crashes - see C06/C08); metadata (timestamp, size) is not judged; only backends that work offline.'),
+  note='Exploration plus exhaustive small scope. One cache object at a time (no concurrency, no crashes - see C06/C08); metadata (timestamp, size) is not judged; only backends that work offline. Later additions: operations are issued through up to three backend objects opened on the same storage and a second thread (separate sqlite connections) against one shared model; digit-group twin addresses (differing by 10^3 / 10^4 / 10^6) at levels 20-22.'),
  'C13': dict(
   category='exploration',
   design_ref='DESIGN.md section 14',
@@ -74,7 +74,7 @@ CHECKS = {
   text='Stateful model-based exploration: generated histories of requests (single, meta, minimised, bulk), clock advances, threshold changes (absolute, relative, mtime of a file, seed-task '
        'threshold, cache-level refresh_before through the real config loader) and upstream failures run against real TileManagers on file, sqlite and mbtiles caches under a virtual clock. After '
        'every step the upstream call log, the served content version and all stored tile slots are compared with a reference model; the same-second band is accepted either way.',
-  note='~4.1k histories / 145k steps quick. UTC only, concurrent_tile_creators=1, sqlite ttl option not exercised; the multiprocess seeder is mimicked by pre-check + load_tile_coords.'),
+  note='~4.1k histories / 145k steps quick. UTC only, concurrent_tile_creators=1, sqlite ttl option not exercised; the multiprocess seeder is mimicked by pre-check + load_tile_coords. Later addition: the server time zone is a generated dimension (7 zones, January / June clocks).'),
  'C17': dict(
   category='exploration',
   design_ref='DESIGN.md section 18',
@@ -92,7 +92,7 @@ CHECKS = {
   text='Generated store/overwrite/remove/remove-level/reopen/defrag histories over CompactCacheV1 and V2 are checked after every step by an independent parser of both bundle formats against a dict '
        'model (entry empty or a complete record inside the file with matching size, header file size equals actual size, exact bytes, no phantom tiles); around each defragmentation (generated '
        'min-percent/min-bytes incl. 0, dry-run) every address must return the same bytes, no file may grow or appear, no tmp_defrag residue.',
-  note='Single writer only; no crash or interruption of defrag (C06 covers crashes of stores); tiles < 16 MB; offsets >= 2^32 not reached.'),
+  note='Single writer only; no crash or interruption of defrag (C06 covers crashes of stores); tiles < 16 MB; offsets >= 2^32 not reached. Later addition: several anchor bundles per history sharing a pool of relative slots, so that one defrag run rewrites >= 2 bundles holding the same slot.'),
  'C20': dict(
   category='exploration',
   design_ref='DESIGN.md section 21',
@@ -100,7 +100,7 @@ CHECKS = {
   text='Generated request / rewrite / clock / outage histories against a real WSGI app (file + sqlite caches, meta- and single-tile creation, TMS, WMTS KVP/REST, KML, WMS-C) with generated '
        'conditional headers (current / historical / garbage ETags, older / current / newer / malformed / pre-1970 dates). After every step the tile is read back from the backend and every response is '
        'checked against the four clauses of the property (stable validators and body, 304 for the current ETag, 304 only if a presented validator matches the stored tile, no-store for uncacheable fill tiles).',
-  note='~2000 histories / 35000 judged requests per quick run. Single process, TZ=UTC; rewrites that change neither second nor size on sqlite are outside the oracle ((timestamp, size) ETags cannot distinguish them).'),
+  note='~2000 histories / 35000 judged requests per quick run. Single process, TZ=UTC; rewrites that change neither second nor size on sqlite are outside the oracle ((timestamp, size) ETags cannot distinguish them). Later additions: server time zone as a generated dimension; file caches with linked single-colour tiles (symlink / hardlink) and solid-colour content versions; a bulk_meta_tiles tile-source cache with on_error fill images.'),
  'C09': dict(
   category='exploration',
   design_ref='DESIGN.md section 10',
@@ -121,7 +121,7 @@ CHECKS = {
        'statement allows it, other addresses unchanged, no exception), followed by a repeat of the store on the crashed directory (a stale lock must not block it). Exhaustive per case over the '
        'process-death crash model; the cases themselves are sampled (about 3.2k stores / 96k crash states quick, 64k stores thorough).',
   note='Fault enumeration is complete per store under the process-death model (completed syscalls persist, no reordering). Power-loss reordering, concurrent writers and sub-page tears are '
-       'not claimed (sub-page tears are counted as statistics only). Two open known findings are tolerated by exact construct and demonstrated by regression cases.'),
+       'not claimed (sub-page tears are counted as statistics only). Two open known findings are tolerated by exact construct and demonstrated by regression cases. Later additions: after each crash state a follow-up store (neighbour address, overwrite of a prior address, same address with smaller / larger content) by a fresh object must leave every address as it read right after the crash.'),
  'C08': dict(
   category='exploration',
   design_ref='DESIGN.md section 9',
@@ -131,7 +131,7 @@ CHECKS = {
        'in thorough); Hypothesis additionally explores 2-6 requesters across thread and multi-process style deployments and the meta-tiling variants (meta tiles, buffers, minimised, bulk, '
        'two caches on one lock directory, concurrent_tile_creators 2).',
   note='Exhaustive within the preemption bound for the listed 2-requester scopes only. "Processes" are threads with separate manager, cache and locker objects; one lock attempt is an atomic '
-       'step (the lock-file race is C07). Interleavings inside sqlite, Pillow or the kernel are not explored; liveness is bounded deadlock-freedom.'),
+       'step (the lock-file race is C07). Interleavings inside sqlite, Pillow or the kernel are not explored; liveness is bounded deadlock-freedom. Later additions: forced cleanup_lockdir scans with yield points on their os calls; a cross-process sub-check (fresh interpreters with different hash seeds must compute identical lock file names and tile locations; real process pairs overlapping on one uncached tile must cause one upstream call).'),
  'C11': dict(
   category='exploration',
   design_ref='DESIGN.md section 12',
@@ -140,7 +140,7 @@ CHECKS = {
        'recorder, the clock is virtual). Handed meta tiles are compared with a flat exact-rational enumeration of required and forbidden tiles, and every interruption point of every task is '
        'judged against a really continued run from the progress file as it was at that point.',
   note='All interruption points per task (continued runs once per distinct progress state, <= 40; real interrupted runs for all k when <= 30 calls, 16 sampled above). "Work done" = tiles handed '
-       'to the pool. Tiles overlapped by <= 0.1 px are not judged. One open known finding (ancestor-grid-gap) is excused tile by tile and counted.'),
+       'to the pool. Tiles overlapped by <= 0.1 px are not judged. One open known finding (ancestor-grid-gap) is excused tile by tile and counted. Later additions: the reference coverage is computed independently from the configured coverage in its own SRS (dense pyproj transformation, measured-sagitta tolerance band); a hand-over sub-check runs the real TileWorkerPool with stub workers and virtual put() timeouts.'),
  'C12': dict(
   category='exploration',
   design_ref='DESIGN.md section 13',
@@ -149,7 +149,7 @@ CHECKS = {
        'mapproxy.yaml / seed.yaml loaders, filled through the real backends with tiles of generated ages, and the real cleanup() result is compared with a specification of what must be removed '
        'and what must be kept, including planted bystanders (other levels, sibling cache, single_color_tiles, lock dir, unrelated files). Full-extent runs are repeated with an all-covering '
        'coverage so that directory walk, bulk delete and tile walk are compared on identical contents.',
-  note='About 14k scenarios per quick run. The +-1 s age band and the <= 0.1 px coverage-touch band are accepted either way. Dimension caches, dry_run, --continue and remote backends are not covered.'),
+  note='About 14k scenarios per quick run. The +-1 s age band and the <= 0.1 px coverage-touch band are accepted either way. Dimension caches, dry_run, --continue and remote backends are not covered. Later addition: tile files vanishing during the directory walk / tile walk (injected ENOENT races) must not make the cleanup skip other expired tiles or abort.'),
  'C18': dict(
   category='exploration',
   design_ref='DESIGN.md section 19',
@@ -159,7 +159,7 @@ CHECKS = {
        'and drawn upstream behaviour (ok / error / non-image / wrong size). Every answer is checked: WSGI response rules, image decodes with the declared type and requested size, XML well-formed '
        'with element names from the fixed template sets, marker only as escaped text in XML/HTML, no traceback or server path. Thorough adds an atheris byte-level campaign.',
   note='Catch-all 500 "internal error" pages are accepted as complete responses (counted by exception class); upstream lies passed through unchanged are not judged; element whitelists in '
-       'markup.py were copied from the 4.0.2 templates; JS-string-context injection in demo pages is not detected.'),
+       'markup.py were copied from the 4.0.2 templates; JS-string-context injection in demo pages is not detected. Later additions: call plans (same request 1-3 times, neighbours, overlapping responses begun before earlier bodies are consumed), wsgi.file_wrapper with close(), a layer that serves the memoised empty tile.'),
  'C14': dict(
   category='exploration',
   design_ref='DESIGN.md section 15',
@@ -168,7 +168,7 @@ CHECKS = {
        'ranges, group layers, RGB / RGBA / paletted / tRNS delivery, combinable same-URL sources (the synthetic server answers LAYERS=a,b with its own composite), transparent flag, bgcolor, png and '
        'jpeg output; each response is compared pixel-wise with the full unoptimised bottom-to-top composition computed from the individual layer images.',
   note='Tolerance 2 levels per layer; pixels within 1.1 px of a coverage edge are not judged; JPEG is judged only in smooth regions. Direct WMS sources only (no caches, tile sources, band merging, '
-       'reprojection). One open known finding (colour key applied after a combined request) is excluded by construction and demonstrated by a regression case.'),
+       'reprojection). One open known finding (colour key applied after a combined request) is excluded by construction and demonstrated by a regression case. Later additions: services.wms.on_source_errors raise / notify / absent and services.wms.bbox_srs extents with requests reaching beyond them.'),
  'C16': dict(
   category='exploration',
   design_ref='DESIGN.md section 17',
@@ -179,7 +179,7 @@ CHECKS = {
        'log, no audit-hook write event and an unchanged cache directory / sqlite row snapshot; the last valid address and at/below-limit maps must be served; every upstream tile URL and '
        'stored path/row must decode into the grid.',
   note='~35k requests / 240 configurations quick, ~3.1M / 20000 thorough. T == max_tile_limit is judged only for side effects (documentation and code disagree on whether exactly the limit is allowed). '
-       'CPU/memory cost of a refused request is not measured; WMS-C tiled=true and reprojected GetMaps are not probed.'),
+       'CPU/memory cost of a refused request is not measured; WMS-C tiled=true and reprojected GetMaps are not probed. Later additions: direct (uncached) and mixed WMS layers, tiled=true / vendor-parameter variants of every pixel-limit probe, two-grid caches and cache-of-cache cascades for the tile-limit probes.'),
  'C01': dict(
   category='exploration',
   design_ref='DESIGN.md section 2 and 25.9',
